@@ -364,6 +364,76 @@ func main() {
 	}
 	outs := make([]*workerOut, workers)
 	var wg sync.WaitGroup
+	var mu sync.Mutex
+	var all []result
+	var crashes []crash
+	inconclusive := []string{}
+	poisonedTotal := 0
+	// followUp runs in the worker's own goroutine: it collects the worker's results and, when the
+	// child did not reach DONE, restarts it behind the poisoned case or confirms the crash/hang.
+	// Once a few cases have wedged the library the verdict is settled (exit 1); exploring further
+	// behind every wedge would only cost a watchdog period each, so restarts are capped.
+	followUp := func(wo *workerOut) {
+		add := func(rs []result) {
+			mu.Lock()
+			all = append(all, rs...)
+			mu.Unlock()
+		}
+		add(wo.results)
+		// a case that leaked a mutex abandons its process on purpose: restart the worker after it
+		for restarts := 0; !wo.done && wo.poisoned >= 0; restarts++ {
+			mu.Lock()
+			poisonedTotal++
+			stop := restarts >= 3 || poisonedTotal > 2*workers
+			mu.Unlock()
+			if stop {
+				return // verdict settled by the recorded violations; the rest stays unexplored
+			}
+			rest := filepath.Join(runDir, fmt.Sprintf("w%d.p%d.out", wo.k, restarts))
+			env := append(append([]string{}, baseEnv...), fmt.Sprintf("VERIF_WORKER=%d", wo.k), "VERIF_OUT="+rest, fmt.Sprintf("VERIF_SKIP_UNTIL=%d", wo.poisoned))
+			wo2 := &workerOut{k: wo.k, started: map[int]bool{}, finished: map[int]bool{}, lastStart: -1, poisoned: -1}
+			wo2.logPath = filepath.Join(runDir, fmt.Sprintf("w%d.p%d.log", wo.k, restarts))
+			wo2.timedOut, wo2.exitErr = runChild(bin, env, wo2.logPath, watchdog)
+			parseOut(rest, wo2)
+			add(wo2.results)
+			wo = wo2
+		}
+		if wo.done {
+			return
+		}
+		// child died or hung: the culprit is the last started, unfinished case
+		culprit := -1
+		if wo.lastStart >= 0 && !wo.finished[wo.lastStart] {
+			culprit = wo.lastStart
+		}
+		headline, frames, _ := crashSummary(wo.logPath)
+		if culprit < 0 {
+			mu.Lock()
+			inconclusive = append(inconclusive, fmt.Sprintf("worker %d ended without DONE and without an open case (%v): %s", wo.k, wo.exitErr, headline))
+			mu.Unlock()
+
+			return
+		}
+		cr := confirmCrash(bin, baseEnv, runDir, culprit, wo, watchdog)
+		if cr.headline == "" {
+			cr.headline, cr.frames = headline, frames
+		}
+		mu.Lock()
+		crashes = append(crashes, cr)
+		mu.Unlock()
+		// run the rest of this worker's cases, skipping the culprit
+		rest := filepath.Join(runDir, fmt.Sprintf("w%d.rest.out", wo.k))
+		env := append(append([]string{}, baseEnv...), fmt.Sprintf("VERIF_WORKER=%d", wo.k), "VERIF_OUT="+rest, fmt.Sprintf("VERIF_SKIP_UNTIL=%d", culprit))
+		wo2 := &workerOut{k: wo.k, started: map[int]bool{}, finished: map[int]bool{}, lastStart: -1}
+		_, _ = runChild(bin, env, filepath.Join(runDir, fmt.Sprintf("w%d.rest.log", wo.k)), watchdog)
+		parseOut(rest, wo2)
+		add(wo2.results)
+		if !wo2.done {
+			mu.Lock()
+			inconclusive = append(inconclusive, fmt.Sprintf("worker %d died again after case %d; remaining cases not explored", wo.k, culprit))
+			mu.Unlock()
+		}
+	}
 	for k := 0; k < workers; k++ {
 		wo := &workerOut{k: k, started: map[int]bool{}, finished: map[int]bool{}, lastStart: -1, poisoned: -1}
 		outs[k] = wo
@@ -375,56 +445,10 @@ func main() {
 			env := append(append([]string{}, baseEnv...), fmt.Sprintf("VERIF_WORKER=%d", k), "VERIF_OUT="+outPath)
 			wo.timedOut, wo.exitErr = runChild(bin, env, wo.logPath, watchdog)
 			parseOut(outPath, wo)
+			followUp(wo)
 		}(k, wo)
 	}
 	wg.Wait()
-
-	var all []result
-	var crashes []crash
-	inconclusive := []string{}
-	for _, wo := range outs {
-		all = append(all, wo.results...)
-		// a case that leaked a mutex abandons its process on purpose: restart the worker after it
-		for restarts := 0; !wo.done && wo.poisoned >= 0 && restarts < 8; restarts++ {
-			rest := filepath.Join(runDir, fmt.Sprintf("w%d.p%d.out", wo.k, restarts))
-			env := append(append([]string{}, baseEnv...), fmt.Sprintf("VERIF_WORKER=%d", wo.k), "VERIF_OUT="+rest, fmt.Sprintf("VERIF_SKIP_UNTIL=%d", wo.poisoned))
-			wo2 := &workerOut{k: wo.k, started: map[int]bool{}, finished: map[int]bool{}, lastStart: -1, poisoned: -1}
-			wo2.logPath = filepath.Join(runDir, fmt.Sprintf("w%d.p%d.log", wo.k, restarts))
-			wo2.timedOut, wo2.exitErr = runChild(bin, env, wo2.logPath, watchdog)
-			parseOut(rest, wo2)
-			all = append(all, wo2.results...)
-			wo = wo2
-		}
-		if wo.done {
-			continue
-		}
-		// child died or hung: the culprit is the last started, unfinished case
-		culprit := -1
-		if wo.lastStart >= 0 && !wo.finished[wo.lastStart] {
-			culprit = wo.lastStart
-		}
-		headline, frames, _ := crashSummary(wo.logPath)
-		if culprit < 0 {
-			inconclusive = append(inconclusive, fmt.Sprintf("worker %d ended without DONE and without an open case (%v): %s", wo.k, wo.exitErr, headline))
-
-			continue
-		}
-		cr := confirmCrash(bin, baseEnv, runDir, culprit, wo, watchdog)
-		if cr.headline == "" {
-			cr.headline, cr.frames = headline, frames
-		}
-		crashes = append(crashes, cr)
-		// run the rest of this worker's cases, skipping the culprit
-		rest := filepath.Join(runDir, fmt.Sprintf("w%d.rest.out", wo.k))
-		env := append(append([]string{}, baseEnv...), fmt.Sprintf("VERIF_WORKER=%d", wo.k), "VERIF_OUT="+rest, fmt.Sprintf("VERIF_SKIP_UNTIL=%d", culprit))
-		wo2 := &workerOut{k: wo.k, started: map[int]bool{}, finished: map[int]bool{}, lastStart: -1}
-		_, _ = runChild(bin, env, filepath.Join(runDir, fmt.Sprintf("w%d.rest.log", wo.k)), watchdog)
-		parseOut(rest, wo2)
-		all = append(all, wo2.results...)
-		if !wo2.done {
-			inconclusive = append(inconclusive, fmt.Sprintf("worker %d died again after case %d; remaining cases not explored", wo.k, culprit))
-		}
-	}
 
 	os.Exit(report(prop, tier, seed, meta, all, crashes, inconclusive, runDir, time.Since(start)))
 }
@@ -563,7 +587,9 @@ func report(prop, tier string, seed int64, meta propMeta, all []result, crashes 
 		}
 		var mine []violation
 		for _, v := range r.Violations {
-			if !contains(v.Props, prop) {
+			if !contains(v.Props, prop) && v.Kind != "mutex-wedged" && v.Kind != "lock-held" {
+				// (a leaked or deadlocked library mutex wedges the endpoint: like a reproducible
+				// panic it fails whichever check met it)
 				cross[v.Kind]++
 
 				continue
